@@ -798,11 +798,12 @@ class CallMixin:
         # havoc frame
         self.st.old_heap, self.st.old_env, self.st.old_ghost = pre_heap, dict(cenv), dict(self.st.ghost)
         try:
+            # ghost effects are functions of the state BEFORE the call (evaluating them after the havoc of `modifies` would read the
+            # callee's fresh post-state and, together with the assumed postconditions, smuggle in constraints on the pre-state)
+            ghost_updates = {g: self.ev_spec(upd, cenv) for g, upd in c.get('ghost_effects', {}).items() if g in self.st.ghost}
             for loc in c.get('modifies', []):
                 self.havoc_location(loc, cenv, c)
-            for g, upd in c.get('ghost_effects', {}).items():
-                if g in self.st.ghost:
-                    self.st.ghost[g] = self.ev_spec(upd, cenv)
+            self.st.ghost.update(ghost_updates)
             if 'yields' in c:
                 return SV('gen', (key, c, dict(cenv)))
             ens = self.clauses(c.get('ensures', []))
